@@ -43,6 +43,9 @@ type c19Case struct {
 	// the connection's GetStats (calls that take the channel's lock for writing).
 	Reenter bool `json:"reenter,omitempty"`
 	Poke    bool `json:"poke,omitempty"`
+	// AnnounceMs: the OnDataChannel handler takes this much (fake) time before it registers
+	// OnMessage, while the creating side already sends.
+	AnnounceMs int `json:"announce_ms,omitempty"`
 }
 
 func vfGenNet(r *vfRand, faulty bool) vfNetCfg {
@@ -104,6 +107,7 @@ func c19Gen(seed uint64, idx, total int, tier string) any {
 		}
 		c.Channels = append(c.Channels, ch)
 	}
+	c.AnnounceMs = vfPick(r, []int{0, 0, 0, 150, 1500, 2500})
 	return c
 }
 
@@ -202,6 +206,9 @@ func c19Run(t *testing.T, cj []byte, res *vfResult) {
 			}
 			st.remote = dc
 			st.mu.Unlock()
+			if c.AnnounceMs > 0 {
+				time.Sleep(time.Duration(c.AnnounceMs) * time.Millisecond) // a handler that sets things up first
+			}
 			dc.OnMessage(func(m DataChannelMessage) {
 				if c.Reenter {
 					_ = dc.Label()
